@@ -1,6 +1,7 @@
 import Genshi.Wire
 import Genshi.Model.Exec
 import Genshi.Model.ExecGraph
+import Genshi.Model.ExecParse
 namespace Driver.C14
 open Genshi Genshi.Exec Genshi.Sexp
 
@@ -97,7 +98,80 @@ def errOut : Option Err → Sexp
 
 def natsOut (xs : List Nat) : Sexp := .list (xs.map ofNat)
 
+/-! parse-level model: the environment (interpolate / Suite / directive table) arrives as tables -/
+open Genshi.Exec.Parse in
+def tev? : Sexp → Option TEv
+  | .list [.atom "T", .str s] => some (.text s)
+  | .list [.atom "E", .str s] => some (.expr s)
+  | _ => none
+
+open Genshi.Exec.Parse in
+def interpRow? : Sexp → Option (List Char × Except PErr (List TEv))
+  | .list [.str s, .atom "Err"] => some (s, .error .badExpr)
+  | .list [.str s, .list evs] => do let evs ← evs.mapM tev?; pure (s, .ok evs)
+  | _ => none
+
+open Genshi.Exec.Parse in
+def mkEnv (interp : List (List Char × Except PErr (List TEv))) (good : List (List Char))
+    (dirs : List (List Char)) : Env :=
+  { interp := fun s => match interp.lookup s with
+      | some r => r
+      | none => .ok [.text s],
+    compiles := fun s => good.contains s,
+    knownDirective := fun c => dirs.contains c }
+
+open Genshi.Exec.Parse in
+def xev? : Sexp → Option XEv
+  | .list [.atom "T", .str s] => some (.text s)
+  | .list [.atom "P", .str t, .str d] => some (.pi t d)
+  | .list [.atom "C", .str s] => some (.comment s)
+  | .list [.atom "O", n] => n.toNat?.map .other
+  | _ => none
+
+open Genshi.Exec.Parse in
+def seg? : Sexp → Option Seg
+  | .list [.atom "T", .str s] => some (.text s)
+  | .list [.atom "D", .str c, .str v] => some (.dir c v)
+  | .list [.atom "C"] => some .comment
+  | _ => none
+
+open Genshi.Exec.Parse in
+partial def tevOut : TEv → Sexp
+  | .text _ => .atom "T"
+  | .expr _ => .atom "E"
+  | .exec _ => .atom "X"
+  | .comment _ => .atom "C"
+  | .pi _ _ => .atom "P"
+  | .other n => .list [.atom "O", ofNat n]
+  | .incl _ => .atom "I"
+  | .sub d _ body => .list [.atom "S", .str d, .list (body.map tevOut)]
+
+open Genshi.Exec.Parse in
+def perrOut : PErr → Sexp
+  | .notAllowed => .atom "notAllowed"
+  | .badCode => .atom "badCode"
+  | .badExpr => .atom "badExpr"
+  | .badDirective => .atom "badDirective"
+
+open Genshi.Exec.Parse in
+def parseOut : Except PErr (List TEv) → Sexp
+  | .ok evs => .list [.atom "ok", .list (evs.map tevOut)]
+  | .error e => .list [.atom "err", perrOut e]
+
 def handle : List Sexp → Option Sexp
+  | [.atom "pmarkup", flag, .list interp, .list good, .list evs] => do
+      let flag ← flag.toBool?
+      let interp ← interp.mapM interpRow?
+      let good ← good.mapM Sexp.toStr?
+      let evs ← evs.mapM xev?
+      pure (parseOut (Genshi.Exec.Parse.parseMarkup (mkEnv interp good []) flag evs []))
+  | [.atom "ptext", flag, .list interp, .list good, .list dirs, .list segs] => do
+      let flag ← flag.toBool?
+      let interp ← interp.mapM interpRow?
+      let good ← good.mapM Sexp.toStr?
+      let dirs ← dirs.mapM Sexp.toStr?
+      let segs ← segs.mapM seg?
+      pure (parseOut (Genshi.Exec.Parse.parseText (mkEnv interp good dirs) flag segs [] [] 0))
   | [.atom "render", t, l, o, ar, root, .list files, rootName, .list history] => do
       let cfg ← cfg? t l o ar
       let root ← root? root
